@@ -6,22 +6,33 @@ M1  C51_MC(.cfg|t.cfg): exact-arithmetic transcription of the projection in Rain
     whole input grid: N in 2..5 atoms, integer vmin (<0, 0, >0), every reward k/4 from one unit below to one unit
     above the support, done in {0,1}, gamma^n in {0,1/4,1/2,1}, every weight vector on the grid (total mass also
     != 1), B <= 2 (3) rows.  Invariants MassConserved, MeanConserved, InRange, Neighbours, NonNeg, StepMass.
-M2  C51_Dump(q).cfg: TLC prints every case with the projection the specification demands; each case is replayed
+    Thorough tier: gamma^n also 3/4, weights in 1/8, B = 3.
+M2  C51_Dump(q).cfg: TLC prints every case with the projection the specification demands (and checks ShiftCovariant on
+    every case: translating the support by sh/Q delta_z -- v_min not a multiple of delta_z -- and the reward by
+    (sh/Q)(1 - (1-d) gamma^n) leaves b = (Tz - v_min)/delta_z unchanged: licence for replays on shifted supports;
+    it does not depend on the weights, so the replay grid is the right place for it); each case is replayed
     into the REAL _dqn_loss of a real RainbowDQN (network forwards stubbed = inputs), proj_dist from the guarded
-    hook compared exactly, the returned element-wise loss with -sum m ln q (harness, float64).  The support is
-    also scaled (delta_z in {1/2, 1, 2}): the spec's unit is delta_z.
-M3  real learn() -- 1-step, n-step, combined, with and without PER, B up to 32, N up to 51, gamma^n with n in 1..3
-    -- recorded (hook + return values) and validated by TLC against C51_Trace (which batch, which discount
-    exponent, source = target net at the online-greedy action, projection, priorities).
-M3' unstubbed networks (clamped softmax, mass != 1): float run, conservation up to float32 rounding.
+    hook compared exactly, the returned element-wise loss with -sum m ln q (harness, float64).  Every case runs on
+    an affine image of the spec's support: delta_z in {1/2, 1, 2, 4, 8}, v_min offset by -3/4 .. 5/4 delta_z, 2..6
+    actions, observation shapes (4,) / (2,3); delta_z = 0.3 (thorough: 0.7, 10/3) with float rounding to the grid.
+M3  real learn() -- 1-step, n-step, combined, with and without PER (non-uniform weights, (B,1) and (B,)), B 1..32 (64),
+    N 2..51 (101), gamma in {0, 1/4, 1/2, 3/4, 1}, n in 1..5, second (third) learn() on the same agent, 2/3/5 actions,
+    observation shapes, prior_eps, agent obtained through clone(), batch_size changed after construction, integer
+    reward / done / action dtypes and shapes, plain-dict experiences, supports written by their bounds ([-10,10]/51,
+    [0,1]/11, [0,500]/16 ...) -- recorded (hook + return values) and validated by TLC against C51_Trace (which batch,
+    which discount exponent, source = target net at the online-greedy action, projection, priorities).
+M3' unstubbed networks (clamped softmax: mass != 1; noisy layers; vector / 2-d / discrete / multi-discrete / image / dict
+    observations): learn() two or three times in a row (optimiser step, soft update with tau in {1e-3, 1/2, 1}, noise
+    reset in between), any gamma (0.99, 0.97 ...) and n, compared with a float64 reference redistribution.
 """
 from __future__ import annotations
 
 import random
+import time
 
 from .. import tlc
 
-Q_T, PDEN_T = 8, 16          # grid of the learn() traces: rewards / discounts in 1/8, weights in 1/16
+Q_T, PDEN_T = 32, 16         # grid of the learn() traces: rewards / discounts in 1/32 (gamma = 1/2, n <= 5), weights in 1/16
 
 TRACE_CFG = f"""SPECIFICATION TSpec
 CONSTANTS
@@ -29,12 +40,29 @@ CONSTANTS
   Gs = {{}}
   Q = {Q_T}
   PDen = {PDEN_T}
+  Shifts = {{}}
   Diag = @DIAG@
 INVARIANT MassConserved
 INVARIANT MeanConserved
 INVARIANT InRangeOnce
 CHECK_DEADLOCK FALSE
 """
+
+# (scale = delta_z, shift = v_min / delta_z - vmin, number of actions) of the affine images the dumped cases are replayed on;
+# the shifts are the sh / Q of C51_MC!MCShifts (ShiftCovariant).  0.3 and 10/3: non-dyadic delta_z (float comparison).
+TRANSFORMS_Q = [(1.0, 0.0, 3), (1.0, 0.5, 2), (0.5, 0.0, 3), (2.0, 0.25, 5), (1.0, 0.0, 3), (4.0, -0.25, 2), (0.3, 0.0, 3),
+                (1.0, -0.75, 4)]
+TRANSFORMS_T = TRANSFORMS_Q + [(10.0 / 3.0, 0.5, 3), (0.5, 1.25, 3), (0.7, 0.25, 2), (8.0, 0.75, 6)]
+
+# supports as users write them (v_min, v_max, num_atoms, batch): non-dyadic delta_z, v_min not a multiple of delta_z.
+# TOP_* are supports on which float32 (v_max - v_min) / delta_z exceeds num_atoms - 1 (drive/c51.top_index_overflows).
+FLOAT_SUPPORTS_Q = [(-10, 10, 51, 6), (0, 1, 11, 4), (-1.0, 2.0, 7, 3)]
+FLOAT_SUPPORTS_T = FLOAT_SUPPORTS_Q + [(0, 10, 101, 4), (-100, 100, 21, 5), (0.5, 3.5, 7, 2), (-3, 3, 13, 8), (0, 100, 51, 16)]
+TOP_SUPPORTS_Q = [(0, 500, 16, 3)]
+TOP_SUPPORTS_T = TOP_SUPPORTS_Q + [(-10, 200, 51, 4), (0, 200, 100, 2), (0.1, 3, 4, 2)]
+
+VARIANTS = [(False, False, False), (False, False, True), (True, False, False), (True, False, True),
+            (True, True, False), (True, True, True)]
 
 
 def _variant(c):
@@ -43,9 +71,12 @@ def _variant(c):
 
 def sig(t, v):
     cl = (v.clauses[0] if v.clauses else v.invariant).split(":")[0]
-    op = v.event.get("op", "?") if isinstance(v.event, dict) else "?"
-    st = v.event.get("set", "") if isinstance(v.event, dict) else ""
-    return f"c51:learn:{_variant(t['cfg'])}:{op}{('-' + st) if st else ''}:{cl}"
+    ev = v.event if isinstance(v.event, dict) else {}
+    op = ev.get("op", "?")
+    st = ev.get("set", "")
+    if cl == "Raises" and ev.get("exc"):
+        cl += "-" + str(ev["exc"]).split(":")[0].strip()
+    return f"c51:learn:{_variant(t['cfg'])}:{op}{('-' + st) if st else ''}:{cl}" + ("" if t["cfg"].get("exact", 1) else ":nondyadic-support")
 
 
 def what(t, v):
@@ -54,15 +85,36 @@ def what(t, v):
     return (f"RainbowDQN.learn trace rejected at event {v.step}: {v.clauses or v.invariant}; cfg={t['cfg']}; event={brief}")
 
 
+def learn_options(j: int, scale: float) -> dict:
+    """Public options / input variations of learn() that the property's quantifier spans, spread deterministically."""
+    o = {"A": [3, 2, 5][j % 3], "obs_shape": [(4,), (2, 3), (6,), (4,)][j % 4], "prior_eps": [1e-6, 0.01, 0.5][(j // 2) % 3],
+         "clone": int(j % 5 == 1), "bs_ctor": (7 if j % 4 == 2 else 0), "ddtype": ["f32", "i64", "u8"][(j // 3) % 3],
+         "ashape": ["f32col", "i64flat", "i64col"][(j // 2) % 3], "container": ("dict" if j % 6 == 4 else "td"),
+         "idxshape": ("col" if j % 2 == 1 else "flat"), "wshape": ("col" if j % 2 == 0 else "flat"),
+         "shift": [0.0, 0.5, 0.0, -0.25, 0.25][j % 5], "scale": scale}
+    if j % 7 == 3:                                                   # integer-valued rewards handed over as int64
+        o.update(rdtype="i64", shift=0.0, scale=max(1.0, scale))
+    return o
+
+
 def run(ctx):
     from ..drive import c51
 
     quick = ctx.quick
     rng = random.Random(ctx.seed)
     steps = ["Indices", "AddLower", "NextPass", "AddUpper", "Finish"]
+    t0 = time.time()
+    phase_s = ctx.extra.setdefault("phase_wall_s", {})
+
+    def lap(name):
+        nonlocal t0
+        phase_s[name] = round(time.time() - t0, 1)
+        t0 = time.time()
+
     ctx.mc("C51_MC", "C51_MC.cfg" if quick else "C51_MCt.cfg", must_cover=steps, timeout=3000)
 
-    # ---- M2: every dumped case into the real _dqn_loss
+    lap("M1 model check")
+    # ---- M2: every dumped case into the real _dqn_loss, on affine images of the specification's support
     r = tlc.dump("C51_MC", "C51_Dumpq.cfg" if quick else "C51_Dump.cfg", heap="8g")
     cases = r.tagged.get("CASE", [])
     if len(cases) < 1000 or not all(isinstance(c, dict) for c in cases[:50]):
@@ -73,76 +125,125 @@ def run(ctx):
     off = ctx.seed % 8
     replayed = 0
     sampled = set()
-    scales = [1.0, 1.0, 0.5, 2.0]
+    transforms = TRANSFORMS_Q if quick else TRANSFORMS_T
     for i, c in enumerate(cases):
         if quick and c["B"] > 1 and i % 8 != off:
             continue
-        scale = scales[(i + ctx.seed) % 4]
-        bad = rp.run(c, scale)
+        scale, shift, nact = transforms[(i + i // len(transforms) + ctx.seed) % len(transforms)]
+        bad = rp.run(c, scale, shift, nact)
         replayed += 1
-        key = (c["N"], c["vmin"], c["B"], c["gq"], str(c["rows"]), scale)
+        key = (c["N"], c["vmin"], c["B"], c["gq"], str(c["rows"]), scale, shift)
         ident = all(c["m"][k * c["N"] + j] == 4 * row["p"][j] for k, row in enumerate(c["rows"]) for j in range(c["N"]))
         ctx.case(key, nontrivial=not ident)
         if bad:
-            ctx.violation(f"c51:dqn_loss:{bad['clause']}:{c51.rclass(c, 4)}",
-                          f"RainbowDQN._dqn_loss disagrees with C51.tla ({bad['clause']}): {bad['detail']}; case={c}, delta_z={scale}",
+            ctx.violation(f"c51:dqn_loss:{bad['clause']}:{c51.rclass(c, 4)}{c51.support_class(scale, shift)}",
+                          f"RainbowDQN._dqn_loss disagrees with C51.tla ({bad['clause']}): {bad['detail']}; case={c}, delta_z={scale}, "
+                          f"v_min={(c['vmin'] + shift) * scale}, actions={nact}",
                           {"kind": "spec-case", "module": "C51_MC", **bad})
-        if not ident and scale not in sampled and replayed > 2000 * len(sampled):
-            sampled.add(scale)
-            ctx.sample({"case": c, "delta_z": scale, "agreed": bad is None})
+        if not ident and (scale, shift) not in sampled and len(sampled) < 3 and replayed > 2000 * len(sampled):
+            sampled.add((scale, shift))
+            ctx.sample({"case": c, "delta_z": scale, "v_min": (c["vmin"] + shift) * scale, "agreed": bad is None})
     ctx.extra["cases_replayed"] = replayed
+    lap("M2 dump + replay")
 
     # ---- M3: real learn() traces
-    variants = [(False, False, False), (False, False, True), (True, False, False), (True, False, True),
-                (True, True, False), (True, True, True)]
-    gam = [(4, 2), (4, 3), (8, 3), (0, 2), (4, 1), (2, 1), (6, 1), (4, 2)]
+    # gamma * 32 and the n-step exponent: gamma^n stays on the 1/32 grid (gamma = 1/2 up to n = 5)
+    gam = [(16, 2), (16, 3), (32, 3), (0, 2), (16, 1), (8, 1), (24, 1), (16, 5), (16, 4), (8, 2), (24, 2), (32, 5)]
     shapes = [(2, 0, 1), (3, -1, 2), (5, 1, 4), (11, -5, 8), (4, -3, 3), (21, -20, 16), (51, -10, 32), (7, 2, 5)]
     if not quick:
         shapes += [(51, 0, 64), (2, -1, 7), (101, -50, 16), (13, 3, 33)]
     traces = []
+    seen_opt = {}
     j = 0
     for rep in range(1 if quick else 4):
         for si, (N, vmin, B) in enumerate(shapes):
             big = N * B > 600
-            for vi, (nstep, combined, per) in enumerate(variants):
+            for vi, (nstep, combined, per) in enumerate(VARIANTS):
                 if big and quick and (vi + si) % 3 != 0:
                     continue
                 gq, n = gam[(j + rep) % len(gam)] if nstep else gam[(j + rep) % len(gam)][:1] + (rng.choice([1, 3]),)
                 if nstep and (si + vi + rep) % 2 == 0:
-                    gq, n = 4, 2 + (vi % 2)                    # gamma = 1/2, n > 1: the exponent is observable
+                    gq, n = 16, [2, 3, 5, 4][(vi + si + rep) % 4]          # gamma = 1/2, n > 1: the exponent is observable
                 scale = [1.0, 0.5, 2.0, 4.0][(j // 3) % 4]
+                opt = learn_options(j + 3 * rep, scale)
                 t = c51.run_learn(N=N, vmin=vmin, B=B, gammaq=gq, n=n, nstep=nstep, combined=combined, per=per, q=Q_T,
-                                  pden=PDEN_T, seed=ctx.seed * 100003 + j, scale=scale, learns=(1 if big else 2),
-                                  wshape=("col" if j % 2 == 0 else "flat"))
+                                  pden=PDEN_T, seed=ctx.seed * 100003 + j, learns=(1 if big else (3 if (not quick and j % 5 == 0) else 2)),
+                                  **opt)
                 traces.append(t)
-                ctx.case(("learn", N, vmin, B, gq, n, nstep, combined, per, scale, j))
+                for k_, v_ in opt.items():
+                    seen_opt.setdefault(k_, set()).add(str(v_))
+                if nstep:
+                    seen_opt.setdefault("gamma*32^n", set()).add(f"{gq}^{n}")
+                ctx.case(("learn", N, vmin, B, gq, n, nstep, combined, per, j, str(sorted(opt.items()))))
                 j += 1
+    # supports given by their bounds (non-dyadic delta_z): the same trace specification, hook values rounded to the grid
+    fl = [(s, 0) for s in (FLOAT_SUPPORTS_Q if quick else FLOAT_SUPPORTS_T)] + [(s, 1) for s in (TOP_SUPPORTS_Q if quick else TOP_SUPPORTS_T)]
+    for fi, ((v_min, v_max, N, B), top) in enumerate(fl):
+        for vi in ([(2 * fi) % 6, (2 * fi + 3) % 6] if quick and not top else ([1] if quick else range(6))):
+            nstep, combined, per = VARIANTS[vi]
+            gq, n = [(16, 2), (24, 1), (16, 3), (32, 2), (8, 2)][(fi + vi) % 5]
+            opt = learn_options(j, 1.0)
+            opt.pop("scale"), opt.pop("shift")
+            opt["rdtype"] = "f32"
+            t = c51.run_learn(N=N, vmin=0, B=B, gammaq=gq, n=n, nstep=nstep, combined=combined, per=per, q=Q_T, pden=PDEN_T,
+                              seed=ctx.seed * 100003 + j, vrange=(v_min, v_max), top=1, **opt)
+            traces.append(t)
+            ctx.case(("learn-float", v_min, v_max, N, B, gq, n, nstep, combined, per, j))
+            j += 1
+    # combined_reward = True without n-step experiences: only the 1-step term
+    for k in range(2 if quick else 12):
+        N, vmin, B = shapes[(3 * k + 1) % len(shapes)]
+        opt = learn_options(j, [1.0, 2.0][k % 2])
+        t = c51.run_learn(N=N, vmin=vmin, B=min(B, 8), gammaq=[16, 24, 8][k % 3], n=[3, 2][k % 2], nstep=False, combined=True,
+                          per=bool(k % 2 == 0), q=Q_T, pden=PDEN_T, seed=ctx.seed * 100003 + j, **opt)
+        traces.append(t)
+        ctx.case(("learn-combined-1step", N, vmin, B, k, j))
+        j += 1
     ctx.sample({"learn_trace_cfg": traces[3]["cfg"],
                 "first_event": {k: v for k, v in traces[3]["ev"][0].items() if k in ("op", "set", "gq", "rows", "m", "ce")}})
+    ctx.extra["learn_option_values"] = {k_: sorted(v_) for k_, v_ in seen_opt.items()}
+    lap("M3 learn() traces recorded")
     ctx.validate("C51_Trace", TRACE_CFG, traces, sig=sig, what=what, chunk=60)
+    lap("M3 traces validated by TLC")
 
-    # ---- M3': the real networks, nothing stubbed
-    for k in range(12 if quick else 120):
-        N, vmin, B = rng.choice([(2, 0, 3), (5, -2, 8), (11, -5, 16), (51, -10, 32), (51, 0, 8)])
-        gamma = rng.choice([0.5, 1.0, 0.99, 0.25, 0.0])
-        bad = c51.run_real_networks(N=N, vmin=vmin, B=B, gamma=gamma, seed=ctx.seed * 7919 + k)
-        ctx.case(("real-net", N, vmin, B, gamma, k))
+    # ---- M3': the real networks, nothing stubbed, learn() several times in a row
+    supports = [(2, 0, 1), (5, -2, 2), (11, -5, 5), (51, -10, 10), (51, 0, 200), (21, 0, 1), (3, -1, 1), (51, 0, 8), (7, 0.5, 3.5)]
+    for k in range(60 if quick else 600):
+        N, v_min, v_max = supports[(k + ctx.seed) % len(supports)]
+        nstep, combined, per = VARIANTS[(k // 2 + ctx.seed) % 6]
+        cfg = {"N": N, "v_min": v_min, "v_max": v_max, "B": [1, 3, 8, 16, 32, 5][k % 6],
+               "gamma": [0.99, 0.5, 1.0, 0.9, 0.0, 0.97][(k // 3) % 6], "seed": ctx.seed * 7919 + k,
+               "obs": c51.OBS_KINDS[k % len(c51.OBS_KINDS)], "A": [3, 2, 6][k % 3], "n": [3, 1, 2, 5][k % 4], "nstep": int(nstep),
+               "combined": int(combined), "per": int(per), "tau": [1e-3, 0.5, 1.0][(k // 2) % 3], "noise_std": [0.5, 0.1][k % 2],
+               "prior_eps": [1e-6, 0.1][(k // 3) % 2], "clone": int(k % 4 == 3), "learns": (3 if (not quick and k % 7 == 0) else 2),
+               "perturb": [0.5, 0.0, 0.25][k % 3]}
+        bad = c51.run_real_learn(**cfg)
+        ctx.case(("real-net", str(sorted(cfg.items()))))
         if bad:
-            ctx.violation(f"c51:realnet:{bad.split(':')[0]}", f"unstubbed RainbowDQN._dqn_loss (N={N}, vmin={vmin}, B={B}, gamma={gamma}, "
-                          f"seed={ctx.seed * 7919 + k}): {bad}", {"kind": "real-net", "N": N, "vmin": vmin, "B": B, "gamma": gamma,
-                                                                 "seed": ctx.seed * 7919 + k, "detail": bad})
-    ctx.assume("rewards, gamma^n and atoms on the 1/4 (traces: 1/8) grid, source weights on the 1/4 (1/16) grid, delta_z a power of two: "
-               "every float32 operation of the projection is exact, so proj_dist is compared with equality")
+            ctx.violation(f"c51:realnet:{bad.split(':')[0]}", f"unstubbed RainbowDQN.learn ({cfg}): {bad}",
+                          {"kind": "real-learn", "cfg": cfg, "detail": bad})
+    lap("M3' unstubbed learn()")
+    ctx.assume("exact mode: rewards, gamma^n and atoms on the 1/4 (traces: 1/32) grid, source weights on the 1/4 (1/16) grid, delta_z a "
+               "power of two and v_min a multiple of delta_z / 4: every float32 operation of the projection is exact, so proj_dist is "
+               "compared with equality")
+    ctx.assume("non-dyadic supports (delta_z = 0.3, 0.4, 10/3, ...): the same cases / traces run on the affine image of the grid "
+               "(C51!ShiftCovariant, checked by TLC); hook values are rounded to the grid when within the float32 error bound "
+               "q*pden*1.25*(1e-6 + 5e-7*(max|v|/delta_z + N)) < 0.2 grid units of a grid point (the projection is continuous), "
+               "so float32 rounding that moves an index across a row boundary by 1e-5 of a mass is visible only when it raises")
     ctx.assume("the networks' forward passes are inputs of the property: they are stubbed with tables keyed by observation content "
-               "(row, batch, role); the unstubbed run (M3') checks conservation only up to 1e-5 (float32 softmax outputs)")
+               "(row, batch, role); the unstubbed runs (M3') compare with a float64 reference redistribution up to 1e-5 + 1e-6 * "
+               "(max|v|/delta_z + N) (float32 rounding)")
     ctx.assume("cross-entropy values are transcendental: -sum m ln q is evaluated by the harness in float64 from the float32 log-pmf it "
                "handed out; tolerance 1e-6 + 4(N+2)*2^-24*sum|m ln q| (float32 product-and-sum bound)")
-    ctx.assume("the spec's unit is delta_z (non-unit delta_z is replayed by scaling v_min, v_max and rewards); vmin is an integer "
-               "multiple of delta_z; the scalar loss (PER-weighted mean) is not part of C18 and is not checked")
+    ctx.assume("the spec's unit is delta_z; the scalar loss (PER-weighted mean) is not part of C18 and is not checked; experiences "
+               "have the layout the replay buffers hand out (reward / done / action of shape (B,1) or action (B,), float32 or integer "
+               "dtypes; float64 rewards and bool done flags are rejected by torch and never produced by agilerl.components.data."
+               "Transition); len(batch) == agent.batch_size")
     ctx.assume("the rainbow.proj hook (AGILERL_VERIF=1) reports the tensors _dqn_loss actually uses")
-    rule = ("case = (atoms N, vmin, batch rows (weights p, reward, done), gamma^n, delta_z) for _dqn_loss replays -- non-trivial = the "
-            "projection is not the identity on p; plus (shape, variant 1-step/n-step/combined x PER, gamma, n, delta_z, seed) for learn() "
-            "traces and (shape, gamma, seed) for unstubbed runs")
+    rule = ("case = (atoms N, vmin, batch rows (weights p, reward, done), gamma^n, delta_z, v_min offset) for _dqn_loss replays -- "
+            "non-trivial = the projection is not the identity on p; plus (shape, variant 1-step/n-step/combined x PER, gamma, n, support, "
+            "actions, observation shape, dtypes / container, prior_eps, clone, batch-size mutation, seed) for learn() traces and the full "
+            "configuration for unstubbed runs")
     return "model_checking", rule, False
 
 
@@ -157,8 +258,9 @@ def replay(path):
     rp = d["replay"]
     print(f"signature: {d['signature']}")
     if rp.get("kind") == "spec-case":
-        bad = c51.Replayer(4, 4, int(d.get("seed", 0))).run(rp["case"], float(rp.get("scale", 1.0)))
-        print(f"case: {rp['case']}  delta_z={rp.get('scale', 1.0)}")
+        bad = c51.Replayer(4, 4, int(d.get("seed", 0))).run(rp["case"], float(rp.get("scale", 1.0)), float(rp.get("shift", 0.0)),
+                                                            int(rp.get("A", 3)))
+        print(f"case: {rp['case']}  delta_z={rp.get('scale', 1.0)} shift={rp.get('shift', 0.0)} actions={rp.get('A', 3)}")
         print("specified projection (units 1/16):", rp["case"]["m"])
         if bad:
             print("observed:", bad.get("observed"))
@@ -168,14 +270,16 @@ def replay(path):
         return 0
     if rp.get("kind") == "rejected-trace":
         c = rp["trace"]["cfg"]
-        t = c51.run_learn(N=c["N"], vmin=c["vmin"], B=c["B"], gammaq=c["gammaq"], n=c["n"], nstep=bool(c["nstep"]),
-                          combined=bool(c["combined"]), per=bool(c["per"]), q=Q_T, pden=PDEN_T, seed=c["seed"], scale=c["scale"],
-                          learns=c.get("learns", 2), wshape=c.get("wshape", "col"))
+        t = c51.run_learn_cfg(c, Q_T, PDEN_T)
         v = trace_mod.validate("C51_Trace", TRACE_CFG, [t])[0]
         for i, ev in enumerate(t["ev"], start=1):
             print(i, {k: ev.get(k) for k in ("op", "set", "gq", "exc", "ce_ok", "prio_ok", "m") if k in ev})
         print("verdict:", "accepted" if v.accepted else f"rejected at event {v.step}: {v.clauses or v.invariant}")
         return 0 if v.accepted else 1
+    if rp.get("kind") == "real-learn":
+        bad = c51.run_real_learn(**rp["cfg"])
+        print(bad or "conserved")
+        return 1 if bad else 0
     if rp.get("kind") == "real-net":
         bad = c51.run_real_networks(N=rp["N"], vmin=rp["vmin"], B=rp["B"], gamma=rp["gamma"], seed=rp["seed"])
         print(bad or "conserved")
